@@ -105,6 +105,11 @@ def units(tier, variant):
                         if fe == 'de-workers2':
                             u['main_process'] = True
                         out.append(u)
+    # construction-order histories of the problem object itself (pickup + solve lens)
+    for order in ('update_optics-before-variables', 'operands-before-variables', 'second-lens-after-first-run', 'clear-and-redeclare'):
+        for fe in ('generic-default', 'least-squares', 'dual-annealing', 'de-workers1'):
+            for scaled in (True, False):
+                out.append(dict(kind='late', order=order, frontend=fe, scaled=scaled, variant=variant))
     for fam in ('identity', 'reversal', 'transpositions', 'rotations'):
         out.append(dict(kind='schedules', family=fam, tier=tier, variant=variant))
     return out
@@ -315,6 +320,87 @@ def run_history(part, unit):
     part.sample(base)
 
 
+def run_late(part, unit):
+    """Histories over the construction of the problem: the order in which variables, operands, update_optics(), runs and
+    further lenses arrive must not matter for what holds on return."""
+    from optiland.optimization import OptimizationProblem
+    pdef = problems(unit['variant'])['pickup-solve']
+    order, fe = unit['order'], unit['frontend']
+    cond = f"frontend={fe.split('-')[0]},order={order}"
+    base = dict(problem='pickup-solve', order=order, frontend=fe, scaled=unit['scaled'], variant=unit['variant'])
+
+    def lens():
+        o = LZ.build(pdef['spec'])
+        o.pickups.add(*pdef['pickup'][:3], scale=pdef['pickup'][3], offset=pdef['pickup'][4])
+        o.solves.add(*pdef['solve'])
+        part.states += 1
+        return o
+
+    def add_vars(prob, o):
+        for (vt, kw, (lo, hi)) in pdef['variables']:
+            prob.add_variable(o, vt, apply_scaling=unit['scaled'], min_val=lo, max_val=hi, **kw)
+
+    def add_ops(prob, o):
+        for (ot, target, weight, data) in pdef['operands']:
+            prob.add_operand(ot, target, weight, dict(data, optic=o))
+
+    def run(prob, lenses_, step):
+        det = dict(base, step=step, site=f'{fe}.optimize')
+        x0 = [float(np.ravel(v.value)[0]) for v in prob.variables]
+        start = float(prob.sum_squared())
+        np.random.seed(2024 + step)
+        _, call = run_frontend(prob, fe)
+        res = call()
+        part.transitions += 1
+        part.evals += 1
+        x = np.atleast_1d(np.asarray(res.x, float))
+        vals = np.array([float(np.ravel(v.value)[0]) for v in prob.variables])
+        if vals.shape != x.shape or np.max(np.abs(vals - x)) > 1e-9 * max(1.0, np.max(np.abs(x))):
+            part.violation(PID, 'lens-is-at-returned-solution', det['site'], cond, det, observed=vals, expected=x, tol=1e-9)
+        fun, merit = float(np.ravel(res.fun)[0]), float(prob.sum_squared())
+        if abs(merit - fun) > 1e-9 * max(1.0, abs(fun)):
+            part.violation(PID, 'returned-objective-is-merit-of-the-lens', det['site'], cond, det, observed=merit, expected=fun, tol=1e-9)
+        indep = sum(independent_merit(o_, pdef) for o_ in lenses_)
+        if abs(merit - indep) > 1e-9 * max(1.0, abs(indep)):
+            part.violation(PID, 'merit-is-weighted-sum-of-squares', 'OptimizationProblem.sum_squared', cond, det, observed=merit, expected=indep, tol=1e-9)
+        if fun > start * (1 + 1e-9) + 1e-12:
+            part.violation(PID, 'objective-not-worse-than-start', det['site'], cond, det, observed=fun, expected=f'<= {start}')
+        for o_ in lenses_:
+            constraints_ok(part, o_, pdef, det, cond)
+        if np.max(np.abs(x - np.asarray(x0))) > 1e-9:
+            part.count('optimiser-moved')
+        part.outcome('late', order, fe, unit['scaled'], step, x)
+
+    prob = OptimizationProblem()
+    a = lens()
+    if order == 'update_optics-before-variables':
+        prob.update_optics()
+        add_vars(prob, a)
+        add_ops(prob, a)
+        run(prob, [a], 0)
+    elif order == 'operands-before-variables':
+        add_ops(prob, a)
+        float(prob.sum_squared())
+        add_vars(prob, a)
+        run(prob, [a], 0)
+    elif order == 'second-lens-after-first-run':
+        add_vars(prob, a)
+        add_ops(prob, a)
+        run(prob, [a], 0)
+        b = lens()
+        add_vars(prob, b)
+        add_ops(prob, b)
+        run(prob, [a, b], 1)
+    else:
+        add_vars(prob, a)
+        add_ops(prob, a)
+        run(prob, [a], 0)
+        prob.clear_variables()
+        add_vars(prob, a)
+        run(prob, [a], 1)
+    part.sample(base)
+
+
 def run_handles(part, unit):
     """Every variable type as a handle: update(v) then value == v; bounds in the units of value."""
     from optiland.optimization.variable import Variable
@@ -444,7 +530,7 @@ def run_schedules(part, unit):
 
 def run_unit(unit):
     part = Part(unit)
-    dict(history=run_history, handles=run_handles, schedules=run_schedules)[unit['kind']](part, unit)
+    dict(history=run_history, handles=run_handles, schedules=run_schedules, late=run_late)[unit['kind']](part, unit)
     return part
 
 
